@@ -137,6 +137,35 @@ def _elem_type(ak, arr):
     return m.group(1) if m else None
 
 
+def _rekey(w, T):
+    """records of the appended array written in the field order of the first array's records when both have the same
+    field names: the merged array keeps the FIRST operand's order; which order it is, is not part of any property"""
+    order = []
+
+    def find(U):
+        if isinstance(U, dict):
+            if U.get("k") == "rec" and not order:
+                order.extend(U.get("ks", []))
+            for v in U.values():
+                find(v)
+        elif isinstance(U, list):
+            for v in U:
+                find(v)
+    find(T)
+
+    def go(e):
+        if e.get("t") == "list":
+            return {"t": "list", "xs": [go(x) for x in e["xs"]]}
+        if e.get("t") == "rec":
+            vs = [go(x) for x in e["vs"]]
+            if order and sorted(order) == sorted(e["ks"]) and list(order) != list(e["ks"]):
+                pos = {k: i for i, k in enumerate(e["ks"])}
+                return {"t": "rec", "ks": list(order), "vs": [vs[pos[k]] for k in order]}
+            return {"t": "rec", "ks": e["ks"], "vs": vs}
+        return e
+    return go(w) if order else w
+
+
 def _leaf_is_bool(T):
     while T.get("k") in ("var", "reg", "opt"):
         T = T["x"]
@@ -297,7 +326,7 @@ def h_chain(case, pick, st, stats):
                 B = ak.Array(ext._box(_fix(json.loads(json.dumps(a.pop("other"))))))
                 if not ak.is_valid(B):
                     continue
-                a["w"] = trmod._tag(ak.to_list(B))
+                a["w"] = _rekey(trmod._tag(ak.to_list(B)), ev["T"])
                 a["_B"] = B
             except (ValueError, TypeError):
                 continue
